@@ -44,7 +44,7 @@ m = {
         "guard": "cfg(any(kani, chumsky_verif))",
         "enable": "cargo kani sets cfg(kani); the native replay binary is built with RUSTFLAGS='--cfg chumsky_verif'; both with CHUMSKY_VERIF_ENTRY=/verif/kani/entry.rs CHUMSKY_VERIF_DIR=/verif/kani",
         "baseline_off_cmd": "cd /repo && cargo test --workspace --no-fail-fast --offline",
-        "source_commits": ["254dc5a", "3d657a1"],
+        "source_commits": ["254dc5a", "3d657a1", "16717d6"],
         "add_only": True,
     },
     "engines": [
